@@ -634,7 +634,7 @@ def check(c):
         import subprocess, os, vlib
         tracked = set(subprocess.run(['git', '-C', vlib.ROOT, 'ls-files', 'coq'], stdout=subprocess.PIPE).stdout.decode().split())
         listed = ['coq/' + l.strip() for l in open(os.path.join(vlib.COQ, '_CoqProject')) if l.strip().endswith('.v')]
-        missing = [f for f in listed if f not in tracked]
+        missing = [f for f in listed if f not in tracked and '/Generated/' not in f]
         if not missing:
             c.thorough_proof(['C08'])
         else:
